@@ -37,6 +37,7 @@ func runSSO(c SSOCase) (*ssoRun, error) {
 	if err != nil {
 		return nil, err
 	}
+	runPrelude(w, c.Spec, c.Prelude)
 	now := time.Now()
 	hr, signed, err := ssoRender(c, now)
 	if err != nil {
@@ -75,6 +76,8 @@ var c08DefectCatalogue = []Defect{
 	{Name: "dest-other-host"}, {Name: "dest-other-path"}, {Name: "dest-trailing-slash"}, {Name: "dest-path-case"}, {Name: "dest-scheme"}, {Name: "dest-prefix"},
 	{Name: "nb-future", Param: "10"}, {Name: "nb-future", Param: "3600"}, {Name: "nb-future", Param: "315360000"},
 	{Name: "noa-past", Param: "10"}, {Name: "noa-past", Param: "3600"}, {Name: "noa-past", Param: "315360000"},
+	{Name: "nb-abs", Param: "9999-12-31T23:59:59Z"}, {Name: "nb-abs", Param: "2400-01-01T00:00:00Z"}, {Name: "nb-abs", Param: "2262-04-12T00:00:00.5Z"}, {Name: "nb-abs", Param: "2038-01-19T03:14:08Z"},
+	{Name: "noa-abs", Param: "1601-01-01T00:00:00Z"}, {Name: "noa-abs", Param: "1500-06-15T12:00:00Z"}, {Name: "noa-abs", Param: "0001-01-01T00:00:00Z"}, {Name: "noa-abs", Param: "1677-09-21T00:12:43Z"}, {Name: "noa-abs", Param: "1970-01-01T00:00:00Z"},
 	{Name: "nb-garbage", Param: "now"}, {Name: "nb-garbage", Param: "dateonly"}, {Name: "nb-garbage", Param: "month13"}, {Name: "noa-garbage", Param: "now"}, {Name: "noa-garbage", Param: "space"},
 	{Name: "unknown-encoding", Param: "urn:example:encoding"}, {Name: "unknown-encoding", Param: "urn:oasis:names:tc:SAML:2.0:bindings:URL-Encoding:deflate"}, {Name: "unknown-encoding", Param: spsim.EncodingDeflate + " "},
 	{Name: "sigalg-without-signature"}, {Name: "empty-samlrequest"}, {Name: "missing-samlrequest"},
@@ -149,10 +152,17 @@ func applyModelDefect(c *SSOCase, d Defect, host string) {
 		}
 	case "dest-prefix":
 		r.Destination = adv[:len(adv)-1]
+	case "dest-of-other-tenant":
+		// the location this IdP advertises under another request host: valid there, not here
+		r.Destination = c.Spec.IdP.Advertised("sso", d.Param)
 	case "nb-future":
 		conds().NotBefore = "@now+" + d.Param
 	case "noa-past":
 		conds().NotOnOrAfter = "@now-" + d.Param
+	case "nb-abs":
+		conds().NotBefore = d.Param
+	case "noa-abs":
+		conds().NotOnOrAfter = d.Param
 	case "nb-garbage":
 		conds().NotBefore = "@now-60/0/" + d.Param
 	case "noa-garbage":
